@@ -90,3 +90,21 @@ Example example_nonvacuous :
   bounds_of ex_G ex_e = Some (AInt (mk_aval (Fin 2) (Fin 1275) (Some 1) 0)) /\
   eval ex_G ex_r ex_e = Some (VInt 802) /\ gate ex_G ex_e = true /\ rt_node ex_G ex_e ex_e.
 Proof. exact example_nonvacuous_lem. Qed.
+
+(* ---------- tightness ---------- *)
+Require Import EmbossV.Bounds.Tight.
+
+(* For +, -, * over leaves with finite ranges, each leaf occurring once, both inferred bounds are
+   attained by some environment ($max is covered by correspondence only; ?: is refuted below). *)
+Theorem tight_arith : forall G e,
+  arith e = true -> NoDup (vars e) -> (forall i, In i (vars e) -> finite_leaf G i) ->
+  forall a, bounds_of G e = Some (AInt a) ->
+  exists l h, a.(lo) = Fin l /\ a.(hi) = Fin h /\ attains G e l /\ attains G e h.
+Proof. exact Tight.tight_arith. Qed.
+Print Assumptions tight_arith.
+
+(* Finding F7: "tight for expressions without repeated variables" is false for ?: *)
+Theorem tight_choice_refuted :
+  (exists a, bounds_of f7_G f7_e = Some (AInt a) /\ hi a = Fin 20) /\
+  (forall r, env_in f7_G r -> eval f7_G r f7_e = Some (VInt 10)).
+Proof. exact Tight.tight_choice_refuted. Qed.
